@@ -49,7 +49,12 @@ def a_expr(n):
         if isinstance(f, ast.Attribute) and isinstance(f.value, ast.Name) and f.value.id == "inspect" and f.attr == "isawaitable" and len(n.args) == 1:
             return f"(A.EIsAwaitable {a_expr(n.args[0])})"
         if isinstance(f, ast.Name) and f.id == "hasattr" and len(n.args) == 2 and isinstance(n.args[1], ast.Constant):
-            return f"(A.EHasAttr {a_expr(n.args[0])} {q(n.args[1].value)})"
+            obj = n.args[0]
+            # hasattr(type(x), name): the protocol looked up on the type, as `async for` does; the embedding's values
+            # do not distinguish instance and type attributes
+            if isinstance(obj, ast.Call) and isinstance(obj.func, ast.Name) and obj.func.id == "type" and len(obj.args) == 1 and not obj.keywords:
+                obj = obj.args[0]
+            return f"(A.EHasAttr {a_expr(obj)} {q(n.args[1].value)})"
         if isinstance(f, ast.Name) and f.id == "iter" and len(n.args) == 1:
             return f"(A.EIter {a_expr(n.args[0])})"
         if isinstance(f, ast.Name) and f.id == "_IteratorToAsyncIterator" and len(n.args) == 1:
@@ -303,7 +308,7 @@ def translate_b(src_root):
     if len(call) != 1:
         raise Untranslatable("Context.call not found")
     a = call[0].args
-    if [x.arg for x in a.args] != ["__self", "__obj"] or a.vararg is None or a.vararg.arg != "args" or a.kwarg is None or a.kwarg.arg != "kwargs":
+    if [x.arg for x in a.posonlyargs + a.args] != ["__self", "__obj"] or a.vararg is None or a.vararg.arg != "args" or a.kwarg is None or a.kwarg.arg != "kwargs":
         raise Untranslatable("Context.call signature changed")
     d["ctx_call"] = b_stmts(call[0].body)
     # _PassArg.from_obj: hasattr(obj, "jinja_pass_arg") -> obj.jinja_pass_arg, else None
